@@ -4,6 +4,7 @@ import (
 	"encoding/json"
 	"flag"
 	"os"
+	"strconv"
 	"strings"
 
 	"github.com/herohde/morlock/pkg/board"
@@ -89,6 +90,10 @@ func boardtrace(args []string) {
 	case "synthetic":
 		for i := 0; i < *n && !full(); i++ {
 			synthetic(g)
+		}
+	case "material":
+		for i := 0; i < *n && !full(); i++ {
+			material(g, int64(i)+*seed*32452843)
 		}
 	default:
 		out.Fatalf("unknown mode %v", *mode)
@@ -218,6 +223,95 @@ func dance(g *gen.G, start string, ztSeed int64) {
 			return
 		}
 		pr.Push(l, g.PickQuiet(legal))
+	}
+}
+
+// material: kings plus two to four pieces drawn from the material that decides "insufficient"
+// (bishops on both square colours, knights, a pawn about to promote, one heavier piece to be
+// captured); every legal move is pushed and taken back, so that each capture and under-promotion
+// that leaves minimal material is judged, for all square colours and owners.
+func material(g *gen.G, ztSeed int64) {
+	r := g.R
+	for tries := 0; tries < 200; tries++ {
+		var sq [64]byte
+		put := func(c byte) int {
+			for k := 0; k < 100; k++ {
+				s := r.Intn(64)
+				if sq[s] != 0 {
+					continue
+				}
+				rank := s / 8
+				if (c == 'P' && rank != 6 && rank != 5) || (c == 'p' && rank != 1 && rank != 2) {
+					continue
+				}
+				sq[s] = c
+				return s
+			}
+			return -1
+		}
+		wk := put('K')
+		bk := put('k')
+		if d := (wk%8 - bk%8); d >= -1 && d <= 1 {
+			if e := (wk/8 - bk/8); e >= -1 && e <= 1 {
+				continue
+			}
+		}
+		pool := []byte("BBbbBbNnPpRrQq")
+		for k := 0; k < 2+r.Intn(3); k++ {
+			c := pool[r.Intn(len(pool))]
+			if k < 2 && r.Intn(3) != 0 {
+				c = []byte("Bb")[r.Intn(2)]
+			}
+			put(c)
+		}
+		var sb strings.Builder
+		for rank := 7; rank >= 0; rank-- {
+			empty := 0
+			for file := 0; file < 8; file++ {
+				c := sq[rank*8+file]
+				if c == 0 {
+					empty++
+					continue
+				}
+				if empty > 0 {
+					sb.WriteString(strconv.Itoa(empty))
+					empty = 0
+				}
+				sb.WriteByte(c)
+			}
+			if empty > 0 {
+				sb.WriteString(strconv.Itoa(empty))
+			}
+			if rank > 0 {
+				sb.WriteByte('/')
+			}
+		}
+		f := sb.String() + " " + []string{"w", "b"}[r.Intn(2)] + " - - 0 1"
+		pos, turn, _, _, err := fen.Decode(f)
+		if err != nil || pos == nil || pos.IsChecked(turn.Opponent()) {
+			continue
+		}
+		pr := g.NewProg(ztSeed)
+		l, err := pr.New(f)
+		if err != nil {
+			continue
+		}
+		legal, _ := gen.LegalOf(l.B)
+		for _, m := range legal {
+			if pr.Push(l, m) {
+				// one reply ply as well: the capture that leaves minimal material is often the answer
+				if m.IsCapture() || m.IsPromotion() || r.Intn(4) == 0 {
+					replies, _ := gen.LegalOf(l.B)
+					for _, rm := range replies {
+						if (rm.IsCapture() || rm.IsPromotion()) && pr.Push(l, rm) {
+							pr.Pop(l)
+						}
+					}
+				}
+				pr.Pop(l)
+			}
+		}
+		return
 	}
 }
 
